@@ -89,7 +89,9 @@ Qed.
 (* ---------- shape of every deleted range ---------- *)
 Definition shape_head (s : str) (lo hi : nat) : Prop :=
   prefixb k_file (skipn lo s) = true /\ lo + 4 <= hi /\ exists o, hi = S o /\ nth_error s o = Some c_open.
-Definition shape_tail (s : str) (lo hi : nat) : Prop := hi = S lo /\ nth_error s lo = Some c_close.
+(* one `)`, together with a trailing comma (and the blanks between) in front of it *)
+Definition shape_tail (s : str) (lo hi : nat) : Prop :=
+  exists c, hi = S c /\ nth_error s c = Some c_close /\ (lo = c \/ (lo < c /\ nth_error s lo = Some c_comma)).
 Definition shape_paren (s : str) (lo hi : nat) : Prop :=
   nth_error s lo = Some c_open /\ exists c, hi = S c /\ nth_error s c = Some c_close.
 Definition range_shape (s : str) (r : range) : Prop :=
@@ -120,6 +122,51 @@ Qed.
 Lemma is_list_inv : forall n, is_list n = true -> exists o c, a_open n = Some o /\ a_close n = Some c.
 Proof. intros n H. unfold is_list in H. destruct (a_open n), (a_close n); try discriminate. eauto. Qed.
 
+Lemma trim_end_prefix : forall s, exists w, s = trim_end s ++ w.
+Proof.
+  induction s as [|c r [w IH]]; [exists []; reflexivity|].
+  simpl. destruct (trim_end r) as [|x r'] eqn:E.
+  - destruct (is_ws c).
+    + exists (c :: r). reflexivity.
+    + exists w. simpl. simpl in IH. rewrite <- IH. reflexivity.
+  - exists w. simpl. rewrite IH at 1. reflexivity.
+Qed.
+
+Lemma ends_with_comma_split : forall t, ends_with_comma t = true -> exists t0, t = t0 ++ [c_comma].
+Proof.
+  intros t H. unfold ends_with_comma in H. destruct (rev t) as [|x l] eqn:E; [discriminate|].
+  apply eqb_char in H. subst x. exists (rev l).
+  rewrite <- (rev_involutive t), E. reflexivity.
+Qed.
+
+Lemma nth_error_firstn_some : forall (A : Type) m (l : list A) k x, nth_error (firstn m l) k = Some x -> nth_error l k = Some x.
+Proof.
+  induction m; intros l k x H; simpl in H; [destruct k; discriminate|].
+  destruct l; [destruct k; discriminate|]. destruct k; simpl in *; auto.
+Qed.
+
+Lemma nth_error_skipn' : forall (A : Type) a (l : list A) k, nth_error (skipn a l) k = nth_error l (a + k).
+Proof.
+  induction a; intros l k; simpl; auto. destruct l; simpl; auto. destruct k; reflexivity.
+Qed.
+
+Lemma tail_start_shape : forall s o c, nth_error s c = Some c_close -> shape_tail s (tail_start s o c) (S c).
+Proof.
+  intros s o c Hc. exists c. split; auto. split; auto. unfold tail_start.
+  destruct (slice (S o) c s) as [inner|] eqn:Sl; auto.
+  destruct (ends_with_comma (trim_end inner)) eqn:E; auto.
+  right. apply slice_some in Sl. destruct Sl as [S1 [S2 Si]].
+  destruct (trim_end_prefix inner) as [w Hw]. destruct (ends_with_comma_split _ E) as [t0 Ht].
+  assert (Li : List.length inner = c - S o) by (subst inner; rewrite firstn_length, skipn_length; lia).
+  assert (Lt : List.length (trim_end inner) = List.length t0 + 1) by (rewrite Ht, app_length; reflexivity).
+  assert (Lw : List.length (trim_end inner) <= List.length inner) by (rewrite Hw at 2; rewrite app_length; lia).
+  split; [lia|].
+  assert (K : nth_error inner (List.length t0) = Some c_comma).
+  { rewrite Hw, Ht, <- app_assoc. rewrite nth_error_app2; [|lia]. rewrite Nat.sub_diag. reflexivity. }
+  rewrite Si in K. apply nth_error_firstn_some in K. rewrite nth_error_skipn' in K.
+  replace (o + List.length (trim_end inner)) with (S o + List.length t0) by lia. exact K.
+Qed.
+
 Lemma get_range_shape : forall s n rs, ok_arg s n -> is_list n = true ->
   get_range s n = Some rs -> Forall (range_shape s) rs.
 Proof.
@@ -139,7 +186,7 @@ Proof.
       * replace (fs + a_start n) with (a_start n + fs) by lia. exact P.
       * lia.
       * exists o; auto.
-    + split; auto. right; left. split; auto.
+    + split; auto. right; left. apply tail_start_shape; auto.
   - inversion H; subst. constructor; [|constructor]. split; auto. right; right. split; auto. exists c; auto.
 Qed.
 
@@ -221,7 +268,7 @@ Proof.
 Qed.
 
 (* C16_surgery_frame: whatever the attribute text, the only byte ranges the surgery deletes are
-   `file...(` , a single `)` , or a parenthesised `( ... )` group *)
+   `file...(` , a `)` with the trailing comma of its group, or a parenthesised `( ... )` group *)
 Theorem surgery_frame : forall s rs, file_ranges s = Some rs -> Forall (range_shape s) rs.
 Proof.
   intros s rs H. unfold file_ranges in H.
